@@ -1,22 +1,34 @@
 #!/bin/sh
 # usage: tools/heldout.sh <worktree-prefix> <ids...>   e.g. tools/heldout.sh /tmp/wt7- C01 C02
-# For every <prefix><id>/SEEDED/m{1,2}: confirm (suite passes, demo fails with / passes without the
-# change) and run the quick tier of the property's own check once against the change. One line each.
+# For every <prefix><id>/SEEDED/m{1,2,3}: confirm (suite passes, demo fails with / passes without the
+# change) and run the quick tier of the property's own check once against the change, in the isolated
+# copy $ISO (default /tmp/iso1, see tools/iso.sh; ISO=none: in /repo itself through try_patch.sh).
 P=$1; shift
+ISO=${ISO:-/tmp/iso1}
 for id in "$@"; do
-  for m in m1 m2; do
+  for m in m1 m2 m3; do
     d=$P$id/SEEDED
-    [ -f $d/$m.diff ] || { echo "$id $m: no diff"; continue; }
+    [ -f $d/$m.diff ] || continue
     if [ -f $d/${m}_demo.rs ]; then
       conf=$(/verif/tools/confirm_seeded.sh $P$id $m 2>&1 | tr '\n' ' ')
       ok=yes
       echo "$conf" | grep -q "suite with change: pass" || ok=no
       echo "$conf" | grep -q "demo with change: fails (good)" || ok=no
       echo "$conf" | grep -q "demo without change: passes (good)" || ok=no
+    elif [ -f $d/${m}_demo.sh ]; then
+      ok=yes
+      ( cd $P$id && git checkout -q -- . && git apply SEEDED/$m.diff &&
+        cargo test --workspace --offline > SEEDED/$m.suite.log 2>&1 ) || ok=no-suite
+      ( cd $P$id && cargo build --offline -p fst-bin >/dev/null 2>&1; sh SEEDED/${m}_demo.sh $P$id/target/debug/fst > SEEDED/$m.demo_with.log 2>&1 ) && ok=no-demo-passes-with
+      ( cd $P$id && git checkout -q -- . && cargo build --offline -p fst-bin >/dev/null 2>&1; sh SEEDED/${m}_demo.sh $P$id/target/debug/fst > SEEDED/$m.demo_without.log 2>&1 ) || ok=no-demo-fails-without
     else
-      ok="sh-demo"
+      ok="no-demo"
     fi
-    r=$(/verif/tools/try_patch.sh $d/$m.diff quick $id | cut -c1-200)
+    if [ "$ISO" = none ]; then
+      r=$(/verif/tools/try_patch.sh $d/$m.diff quick $id | cut -c1-200)
+    else
+      r=$(/verif/tools/iso.sh try $ISO $d/$m.diff quick $id | cut -c1-200)
+    fi
     echo "$id $m: confirmed=$ok :: $r"
   done
 done
